@@ -414,3 +414,18 @@ package tss
 //@ define rsWF(rp) = rp != nil && wfParams(rp.Parameters) && wfIDs(rp.Parameters.parties.partyIDs) && rp.newParties != nil && wfIDs(rp.newParties.partyIDs)
 //@ define rsNew(rp) = memberOf(rp.newParties.partyIDs, rp.Parameters.partyID)
 //@ define rsOld(rp) = memberOf(rp.Parameters.parties.partyIDs, rp.Parameters.partyID)
+
+//@ func (SortedPartyIDs).Exclude
+//@   props C06 C08
+//@   requires exclude != nil && exclude.MessageWrapper_PartyID != nil
+//@   requires forall k in 0..len(spids) :: (spids[k] != nil && spids[k].MessageWrapper_PartyID != nil)
+//@   ensures fresh(result) && len(result) <= len(spids) && (forall k in 0..len(result) :: (result[k] != nil && result[k].MessageWrapper_PartyID != nil))
+//@   loop 0 invariant fresh(newSpIDs) && len(newSpIDs) <= $iter && cap(newSpIDs) == len(spids) && (forall k in 0..len(newSpIDs) :: (newSpIDs[k] != nil && newSpIDs[k].MessageWrapper_PartyID != nil))
+
+//@ func (*ReSharingParameters).OldAndNewParties
+//@   props C06 C08
+//@   requires rgParams != nil && rgParams.Parameters != nil && rgParams.Parameters.parties != nil && rgParams.newParties != nil
+//@   requires wfIDs(rgParams.Parameters.parties.partyIDs) && wfIDs(rgParams.newParties.partyIDs)
+//@   skip frame
+//@   note the append may write into spare capacity of the old committee's id slice (beyond its length); not a functional effect
+//@   ensures len(result) == len(rgParams.Parameters.parties.partyIDs) + len(rgParams.newParties.partyIDs) && (forall k in 0..len(result) :: result[k] != nil)
